@@ -244,7 +244,9 @@ def run(ctx):
     _oracle_mpc(ctx, state)
     ctx.extra['max_float_discrepancy'] = {'solve_vs_exact(rel)': state['maxdisc'], 'tolerance': 1e-9,
                                           'penalize_vs_condense(rel)': state['pen_maxdisc'], 'penalize_tolerance': 1e-6,
-                                          'eigen_residual(rel)': state['eig_maxdisc'], 'eigen_tolerance': 1e-8}
+                                          'penalize_zero_diagonal_vs_condense(rel)': state.get('pen0_maxdisc', 0.0),
+                                          'eigen_residual(rel)': state['eig_maxdisc'], 'eigen_tolerance': 1e-8,
+                                          'mpc_solve_vs_exact(rel)': state.get('mpc_maxdisc', 0.0)}
     if gen_ok:
         nt = lambda r: r.get('nontrivial', False)  # noqa: E731
         spec = [('enforce', 'run_enforce', '(option_eqb eq_mo)'),
@@ -255,9 +257,11 @@ def run(ctx):
                 ('expand', 'run_expand', 'zs_eqb'),
                 ('expand_eig', 'run_expand_eig', 'zss_eqb'),
                 ('positions', 'run_positions', '(option_eqb zs_eqb)')]
-        for name, fn, eqb in spec:
-            if cases[name]:
-                ctx.corr(name, IMPORTS, fn, eqb, cases[name], defs=DEFS, nontrivial=nt)
+        # the files of the different functions are independent: evaluate them concurrently
+        from concurrent.futures import ThreadPoolExecutor
+        with ThreadPoolExecutor(4) as ex:
+            list(ex.map(lambda s: ctx.corr(s[0], IMPORTS, s[1], s[2], cases[s[0]], defs=DEFS, nontrivial=nt) if cases[s[0]] else None,
+                        spec))
 
 
 # ------------------------------------------------------------------------------------ single calls on the implementation
@@ -412,6 +416,14 @@ def check_condense_case(ctx, cases, state, n, csr, b, x, S, which, rng, Sarg=Non
     else:
         AII, bI, xr, Ir = out
     Ir_l, xr_l = [int(i) for i in Ir], ints(xr)
+    # expand=False: the same system without (x, I)
+    out2 = condense(A, bb, xx, expand=False, **{which: Sarr})
+    if b_eff is None:
+        same = sp.issparse(out2) and canon_rows(out2) == canon_rows(AII)
+    else:
+        same = isinstance(out2, tuple) and len(out2) == 2 and canon_rows(out2[0]) == canon_rows(AII) and ints(out2[1]) == ints(bI)
+    if not same:
+        ctx.fail('condense:expand=False', 'condense(expand=False) does not return the same condensed system without (x, I)', rep)
     rowsII = canon_rows(AII)
     got_bI = None if bI is None else ints(bI)
     if view_lists is None:
@@ -505,24 +517,66 @@ def check_penalize_case(ctx, cases, state, n, csr, b, x, S, which, k, rng):
     if gA != eA or gb != eb:
         ctx.fail('penalize:wrong-result', 'penalize: diagonal of D not 1/epsilon / rhs not x/epsilon / other entries changed',
                  dict(rep, expected=[eA, eb], got=[gA, gb]))
+    # overwrite=True: same result, the arguments are returned
+    A3 = to_scipy(ip, ix, d, n)
+    b3 = None if b is None else np.array(b, dtype=float)
+    out3 = penalize(A3, b3, xx, epsilon=2.0 ** -k, overwrite=True, **{which: Sarr})
+    A4, b4 = (out3 if isinstance(out3, tuple) else (out3, None))
+    if A4 is not A3 or (b3 is not None and b4 is not b3) or canon_rows(A4) != canon_rows(A2) or (b4 is not None and ints(b4) != gb):
+        ctx.fail('penalize:overwrite-differs', 'penalize(overwrite=True) differs from overwrite=False or does not return its arguments', rep)
+    # matrix right-hand side: the mass matrix is returned unchanged (a copy)
+    csrB = rand_csr(rng, n)
+    Bm = to_scipy(*csrB, n)
+    cb = checksum(Bm)
+    A5, B5 = penalize(to_scipy(ip, ix, d, n), Bm, epsilon=2.0 ** -k, **{which: Sarr})
+    if checksum(Bm) != cb or B5 is Bm or canon_rows(B5) != canon_rows(Bm) or canon_rows(A5) != canon_rows(A2):
+        ctx.fail('penalize:matrix-rhs', 'penalize with a matrix right-hand side: mass matrix changed / not copied, or stiffness differs', rep)
     cases['penalize'].append((tup(c_csr(ip, ix, d), c_ozs(b), c_ozs(x), *((c_onats(S), 'NoNats') if which == 'I' else ('NoNats', c_onats(S))),
                                   cz(w)), f'(Some ({c_rows(canon_rows(A2))}, {c_ozs(gb)}))', rep))
 
 
-def check_penalize_limit(ctx, state, n, csr, b, x, D, rng):
-    """default epsilon on a diagonally dominant system: penalised solution vs condensed solution"""
+def check_penalize_limit(ctx, state, n, csr, b, x, D, rng, zero_diag=False):
+    """default epsilon: penalised solution vs condensed solution on a system whose kept block is diagonally dominant.
+    zero_diag: the constrained rows carry a zero (or no) diagonal entry, as the pressure rows of a saddle-point system or
+    rows without stored entries do — the property quantifies over those matrices too."""
     from skfem.utils import penalize, condense, solve
-    A = to_scipy(*csr, n)
+    ip, ix, d = [list(a) for a in csr]
+    if zero_diag:
+        # drop the diagonal entries of the rows in D (every second one is kept as an explicit zero)
+        nip, nix, nd = [0], [], []
+        for i in range(n):
+            for k in range(ip[i], ip[i + 1]):
+                if i in D and ix[k] == i:
+                    if (i + len(nix)) % 2 == 0:
+                        nix.append(i)
+                        nd.append(0)
+                    continue
+                nix.append(ix[k])
+                nd.append(d[k])
+            nip.append(len(nix))
+        ip, ix, d = nip, nix, nd
+    A = to_scipy(ip, ix, d, n)
     bb, xx = np.array(b, dtype=float), np.array(x, dtype=float)
     Darr = idx_array(rng, D)
-    yp = solve(*penalize(A, bb, xx, D=Darr))
+    key = 'penalize:default-epsilon:zero-diagonal' if zero_diag else 'penalize:limit'
+    rep = {'fn': 'penalize (default epsilon) vs condense', 'n': n, 'indptr': ip, 'indices': ix, 'data': d, 'b': b, 'x': x, 'D': D}
+    ctx.count(('penalize_limit', zero_diag, n, ip, ix, d, b, x, D), nontrivial=0 < len(D) < n)
     yc = solve(*condense(A, bb, xx, D=Darr))
+    try:
+        with np.errstate(all='ignore'):
+            yp = solve(*penalize(A, bb, xx, D=Darr))
+    except Exception as e:  # noqa: BLE001
+        ctx.fail(key, f'solve(*penalize(...)) raises {e!r} where the condensed system is uniquely solvable', rep)
+        return
     disc = float(np.max(np.abs(yp - yc)) / max(1.0, np.max(np.abs(yc))))
-    state['pen_maxdisc'] = max(state['pen_maxdisc'], disc)
-    ctx.count(('penalize_limit', n, csr, b, x, D), nontrivial=0 < len(D) < n)
-    if disc > 1e-6:
-        ctx.fail('penalize:limit', f'penalize (default epsilon) deviates from condense by {disc:.2e}',
-                 {'n': n, 'csr': list(csr), 'b': b, 'x': x, 'D': D})
+    if not zero_diag:
+        state['pen_maxdisc'] = max(state['pen_maxdisc'], disc if np.isfinite(disc) else np.inf)
+    else:
+        state['pen0_maxdisc'] = max(state.get('pen0_maxdisc', 0.0), disc if np.isfinite(disc) else np.inf)
+    if not (disc <= 1e-6):
+        ctx.fail(key, f'penalize with its default epsilon deviates from condense by {disc:.2e} (rel): the prescribed values '
+                 f'are not imposed (y[D] = {yp[D].tolist()}, x[D] = {xx[D].tolist()})',
+                 dict(rep, penalized_solution=yp.tolist(), condensed_solution=yc.tolist()))
 
 
 def check_expand(ctx, cases, n, x, I, z, X):
@@ -593,7 +647,7 @@ def check_eigen_pipeline(ctx, state, n, rng):
 def _gen_random(ctx, cases, state):
     rng = ctx.rng
     nmax = ctx.n(8, 12)
-    N = ctx.n(260, 1500)
+    N = ctx.n(260, 1000)
     # the matrix of finding F6 first (fixed regression corpus), then random
     f6 = ([0, 2, 2, 5, 8], [1, 0, 3, 0, 2, 1, 3, 2], [1, 2, 3, 0, 5, 6, 7, 8])
     for D in ([0, 1, 2], [0, 1], [1, 2], [2, 3], [1], [3, 1, 0]):
@@ -631,6 +685,8 @@ def _gen_random(ctx, cases, state):
         D = S if which == 'D' else [i for i in range(n) if i not in S]
         if 0 < len(D) < n:
             check_penalize_limit(ctx, state, n, csr, b, x, D, rng)
+            if it % 4 == 0:
+                check_penalize_limit(ctx, state, n, csr, b, x, D, rng, zero_diag=True)
     for it in range(ctx.n(15, 80)):
         check_eigen_pipeline(ctx, state, rng.randint(3, nmax), rng)
     # positions: the generated arithmetic vs the implementation's lines executed verbatim is not observable directly;
@@ -730,44 +786,92 @@ def _gen_basis(ctx, cases, state):
 
 
 def _oracle_mpc(ctx, state):
-    """mpc is not modelled: exact oracle.  x[S] = T x[M] + g and the rows U, M of A x = b hold for the expanded solution"""
-    from skfem.utils import mpc
+    """mpc is not modelled in Coq: exact oracle.  For the solution x returned by solve(*mpc(...)):
+    x[S] = T x[M] + g and the rows U, M of A x = b hold; all defaults (T, g, S, M omitted) are exercised; the expansion
+    branches of solve_linear / solve_eigen for a tuple I are checked exactly with stub solvers."""
+    from skfem.utils import mpc, solve, solve_linear, solve_eigen
     rng = ctx.rng
+    worst = 0.0
     for it in range(ctx.n(40, 200)):
         n = rng.randint(3, 8)
         csr = rand_csr(rng, n, dominant=True, empty_p=0.0)
         A = to_scipy(*csr, n)
         b = [rng.randint(-9, 9) for _ in range(n)]
         k = rng.randint(1, n // 2)
-        SM = rng.sample(range(n), 2 * k) if rng.random() < 0.5 else rng.sample(range(n), k + rng.randint(1, n - k))
-        S, M = SM[:k], SM[k:]
+        mode = it % 4
+        if mode == 3:
+            S, M = [], []                       # no constraint at all: S, M omitted
+        else:
+            SM = rng.sample(range(n), 2 * k) if (rng.random() < 0.5 or mode == 1) else rng.sample(range(n), k + rng.randint(1, n - k))
+            S, M = SM[:k], SM[k:]
         T = [[rng.choice([0, 0, 1, -1, 2]) for _ in M] for _ in S]
         g = [rng.randint(-3, 3) for _ in S]
+        kw = {}
+        if mode != 3:
+            kw = {'S': np.array(S), 'M': np.array(M)}
+            if mode == 1:                       # T omitted: identity (|S| = |M|)
+                T = [[1 if r == c else 0 for c in range(len(M))] for r in range(len(S))]
+            else:
+                kw['T'] = sp.csr_matrix(np.array(T, dtype=float).reshape(len(S), len(M)))
+            if mode == 2:                       # g omitted: zero
+                g = [0] * len(S)
+            else:
+                kw['g'] = np.array(g, dtype=float)
         U = [i for i in range(n) if i not in S and i not in M]
         bb = np.array(b, dtype=float)
         before = checksum(A, bb)
-        B, yv, x0, (perm, fexp) = mpc(A, bb, S=np.array(S), M=np.array(M), T=sp.csr_matrix(np.array(T, dtype=float).reshape(len(S), len(M))),
-                                       g=np.array(g, dtype=float))
-        ctx.count(('mpc', n, csr, b, S, M, T, g), nontrivial=True)
+        rep = {'fn': 'mpc', 'n': n, 'csr': list(csr), 'b': b, 'S': S, 'M': M, 'T': T, 'g': g, 'defaults': {0: 'none', 1: 'T', 2: 'g', 3: 'S,M,T,g'}[mode]}
+        B, yv, x0, (perm, fexp) = mpc(A, bb, **kw)
+        ctx.count(('mpc', n, csr, b, S, M, T, g, mode), nontrivial=mode != 3)
+        ctx.hist('mpc_defaults', rep['defaults'])
         if checksum(A, bb) != before:
-            ctx.fail('no_mutation:mpc', 'mpc modified its arguments', {'n': n})
+            ctx.fail('no_mutation:mpc', 'mpc modified its arguments', rep)
         dB = [[as_int(v) for v in r] for r in B.toarray()]
         u = frac_solve(dB, ints(yv))
+        if [int(i) for i in perm] != U + M + S:
+            ctx.fail('mpc:permutation', 'mpc: index bookkeeping (U, M, S) wrong', dict(rep, got=[int(i) for i in perm]))
+            continue
         if u is None:
             continue
         uM = u[len(U):]
         xs = [sum(Fraction(T[r][c]) * uM[c] for c in range(len(M))) + g[r] for r in range(len(S))]
         full = [Fraction(0)] * n
-        for pos, i in enumerate([int(i) for i in perm]):
+        for pos, i in enumerate(U + M + S):
             full[i] += (u + xs)[pos]
         dense = dense_of(*csr, n)
-        ok = [int(i) for i in perm] == U + M + S and all(
-            sum(Fraction(dense[i][j]) * full[j] for j in range(n)) == b[i] for i in U + M)
-        # the expansion function of the implementation on the float vector
-        ef = fexp(np.array([float(v) for v in u]))
-        if not ok or len(ef) != n:
-            ctx.fail('mpc:solution', 'mpc: expanded exact solution violates rows U,M of A x = b or the index bookkeeping',
-                     {'n': n, 'csr': list(csr), 'b': b, 'S': S, 'M': M, 'T': T, 'g': g})
+        if not all(sum(Fraction(dense[i][j]) * full[j] for j in range(n)) == b[i] for i in U + M):
+            ctx.fail('mpc:solution', 'mpc: exact solution of the reduced system, expanded, violates rows U, M of A x = b', rep)
+            continue
+        # the float pipeline: solve(*mpc(...)) -> solve_linear's tuple branch
+        xf = solve(B, yv, x0, (perm, fexp))
+        disc = max(abs(float(xf[i]) - float(full[i])) for i in range(n)) / max(1.0, max(abs(float(v)) for v in full))
+        worst = max(worst, disc)
+        if not (disc <= 1e-9) or len(xf) != n:
+            ctx.fail('mpc:solve', f'solve(*mpc(...)) deviates from the exact constrained solution by {disc:.2e}', dict(rep, got=[float(v) for v in xf]))
+        # expansion branches with stub solvers (exact integers)
+        z = [rng.randint(-5, 5) for _ in range(len(U) + len(M))]
+        zz = np.array(z, dtype=float)
+        xl = solve_linear(None, None, np.zeros(n), (perm, fexp), solver=lambda A_, b_, **kw_: zz)
+        zM = z[len(U):]
+        exp = [0] * n
+        for pos, i in enumerate(U + M + S):
+            exp[i] += (z + [sum(T[r][c] * zM[c] for c in range(len(M))) + g[r] for r in range(len(S))])[pos]
+        if ints(xl) != exp:
+            ctx.fail('solve_linear:tuple-expansion', 'solve_linear with a (indices, expansion) tuple does not scatter the expanded vector',
+                     dict(rep, z=z, got=ints(xl), expected=exp))
+        X = np.array([[rng.randint(-5, 5) for _ in range(2)] for _ in range(len(U) + len(M))], dtype=float).reshape(len(U) + len(M), 2)
+        L, Y = solve_eigen(None, None, np.zeros(n), (perm, fexp), solver=lambda A_, M_, **kw_: (np.zeros(2), X))
+        okc = Y.shape == (n, 2)
+        for c in range(2 if okc else 0):
+            col = [as_int(v) for v in X[:, c]]
+            cM = col[len(U):]
+            e = [0] * n
+            for pos, i in enumerate(U + M + S):
+                e[i] += (col + [sum(T[r][cc] * cM[cc] for cc in range(len(M))) + g[r] for r in range(len(S))])[pos]
+            okc = okc and ints(Y[:, c]) == e
+        if not okc:
+            ctx.fail('solve_eigen:tuple-expansion', 'solve_eigen with a (indices, expansion) tuple does not scatter the expanded eigenvectors', rep)
+    state['mpc_maxdisc'] = worst
 
 
 def replay(ctx, data):
